@@ -283,10 +283,68 @@ def run(ctx, model):
                                    "case": {"kind": "history", "script": h["script"], "thresholds": h["thr"], "query_index": qi}})
             break
     highlevel(ctx, cov)
+    timezone_scenarios(ctx, cov)
     return cov
 
 
+def timezone_scenarios(ctx, cov):
+    """The age threshold with the REAL clock in a local time zone that is not UTC (west and east of it): an image uploaded
+    T seconds ago with a maximum age below T needs uploading; one uploaded a moment ago with a generous maximum age does
+    not.  (Everything else runs on a patched clock; this is the one place where the wall clock and the zone matter.)"""
+    work = ctx.work
+
+    def child(tz):
+        common.scrub_process_env()
+        os.environ["HOME"] = work
+        os.environ["XDG_STATE_HOME"] = os.path.join(work, "state")
+        os.environ["XDG_CONFIG_HOME"] = os.path.join(work, "config")
+        os.environ["TZ"] = tz
+        import time as _t
+        _t.tzset()
+        import tupimage
+        from PIL import Image
+        p = os.path.join(work, "c04-tz.png")
+        Image.new("RGB", (5, 4), (1, 2, 3)).save(p)
+        out = {}
+        for name, max_age, wait in (("expired", 1, 1.6), ("fresh", 600, 0.0)):
+            db = os.path.join(work, f"c04-tz-{os.getpid()}-{name}.db")
+            stream = common.RecStream()
+            t = tupimage.TupimageTerminal(out_command=stream, out_display=common.RecStream(), in_response=open("/dev/tty", "rb", buffering=0), id_database=db,
+                                          config="DEFAULT", terminal_id="tz", session_id="tz", id_space="8bit", id_subspace="20:30", upload_method="direct",
+                                          redetect_terminal=False, num_tmux_layers=0, reupload_max_seconds_ago=max_age, reupload_max_uploads_ago=1024, reupload_max_bytes_ago=10**9)
+            inst = t.upload(p)
+            _t.sleep(wait)
+            n0 = len(stream.writes)
+            needs = t.needs_uploading(inst.id)
+            low = t.id_manager.needs_uploading(inst.id, t._terminal_id, max_time_ago=__import__("datetime").timedelta(seconds=max_age))
+            t.upload(p)
+            out[name] = {"needs": bool(needs), "idm_needs": bool(low), "retransmitted": sum(len(w) for w in stream.writes[n0:]) > 0}
+            os.remove(db)
+        return out
+
+    for tz in ("EST5", "JST-9", "UTC0"):
+        r = common.in_pty(lambda tz=tz: child(tz), timeout=120)
+        if "ok" not in r:
+            ctx.corr_breaks.append({"what": "time-zone scenarios failed in the pty sandbox", "error": {k: v for k, v in r.items() if k != "tty"}})
+            continue
+        for name, want in (("expired", True), ("fresh", False)):
+            got = r["ok"][name]
+            cov.add({"tz": tz, "scenario": name, "observed": got}, klass=f"timezone/{tz}/{name}")
+            if got["needs"] != want or got["idm_needs"] != want or got["retransmitted"] != want:
+                cls = "no-upload-although-condition-fails" if want else "needless-reupload"
+                ctx.violations.append({"signature": {"class": cls, "path": "real clock, TZ=" + tz},
+                                       "what": f"local time zone {tz}: an image uploaded {'1.6 s ago with a maximum age of 1 s' if want else 'a moment ago with a maximum age of 600 s'}: "
+                                               f"needs_uploading={got['needs']} (IDManager: {got['idm_needs']}), re-transmitted={got['retransmitted']}; expected {want}",
+                                       "case": {"kind": "timezone", "tz": tz, "scenario": name}})
+
+
 def replay(ctx, model, rec):
+    if rec.get("case", {}).get("kind") == "timezone":
+        n0 = len(ctx.violations)
+        timezone_scenarios(ctx, common.Coverage("replay"))
+        mine = ctx.violations[n0:]
+        del ctx.violations[n0:]
+        return {"violates": bool(mine), "violations": [v["what"] for v in mine][:3]}
     """Known finding F-C04b / any history case: re-run the three-step witness on the real IDManager."""
     case = rec["case"]
     tup = common.import_impl()
